@@ -113,3 +113,18 @@ Definition relative_shape (l : text) : bool :=
   end.
 
 Definition uri_reference_shape (l : text) : bool := file_uri_shape l || relative_shape l.
+
+(* ---- the documented forms ----------------------------------------------------------
+   "file:///x" for an absolute Unix name, "file:///C:/x" for a drive-absolute Windows name (the
+   drive stays readable), "file://server/share" for a UNC name, no "file:" prefix otherwise. *)
+Definition has_prefix (p s : text) : bool :=
+  match strip_prefix p s with Some _ => true | None => false end.
+Definition file_colon : text := [102; 105; 108; 101; 58].
+
+Definition uri_form (unix : bool) (f s : text) : bool :=
+  if unix then
+    (if unix_absolute f then has_prefix (file_colon ++ [47; 47; 47]) s else negb (has_prefix file_colon s))
+  else if win_drive_absolute f then has_prefix (file_colon ++ [47; 47; 47] ++ firstn 2 f) s
+  else if win_unc f then
+    has_prefix (file_colon ++ [47; 47]) s && negb (has_prefix (file_colon ++ [47; 47; 47]) s)
+  else negb (has_prefix file_colon s).
